@@ -372,7 +372,7 @@ def case_strategy(tier, rot, max_ops=80):
             "rot": rot,
             "est": draw(st.one_of(st.integers(1, 5), st.integers(1, 3), st.integers(1, 50 if not rot else 8),
                                   st.integers(1, (300 if tier == "quick" else 2500) if not rot else 8))),
-            "fpr": draw(st.sampled_from([0.05, 0.01, 0.001, 0.2, 0.5, 0.0001, 0.3, 0.35, 0.4, 0.1])),
+            "fpr": draw(st.sampled_from([0.05, 0.01, 0.001, 0.2, 0.5, 0.0001, 0.3, 0.35, 0.4, 0.1, 0.6, 0.65, 0.7])),  # up to the largest rates the sizing accepts (few bits: saturated early)
             "q": draw(st.integers(1, 4)),
             "hash": draw(gen.hash_name_st(gen.GOOD_HASHES + ["pairs"])),
             "ops": [list(o) for o in draw(st.lists(op, min_size=5, max_size=max_ops))],
